@@ -212,6 +212,9 @@ func Strip(v ssa.Value, conv bool) ssa.Value {
 // IsInput reports whether v is a parameter (or captured variable) of the function or a field read off one,
 // i.e. a value handed in by the caller as it is, not the result of any call or computation.
 func IsInput(v ssa.Value) bool {
+	if _, _, ok := ParamRead(Strip(v, false)); ok {
+		return true // (also a field of a by-value request record, read from the parameter's own untouched cell)
+	}
 	for i := 0; i < 8; i++ {
 		switch x := Strip(v, false).(type) {
 		case *ssa.Parameter, *ssa.FreeVar:
@@ -998,4 +1001,18 @@ func PhiLeaves(v ssa.Value) []ssa.Value {
 	}
 	walk(v)
 	return out
+}
+
+// IsParamNamed: v is the parameter called name, or - when the function takes its arguments as a by-value record - the
+// field called name of such a record read from the parameter's own untouched cell (see ParamRead).
+func IsParamNamed(v ssa.Value, name string) bool {
+	p, field, ok := ParamRead(v)
+	if !ok {
+		return false
+	}
+	if field < 0 {
+		return p.Name() == name
+	}
+	st := derefStruct(p.Type())
+	return st != nil && field < st.NumFields() && st.Field(field).Name() == name
 }
